@@ -348,9 +348,20 @@ pub fn split_by_comma(input: &str) -> Vec<String> {
     let mut bracket_depth: i32 = 0; // Track square brackets for vectors
     let mut angle_depth: i32 = 0; // Track angle brackets for aggregates like top_k<3, Points, desc>
     let mut in_string = false;
+    let mut escaped = false; // previous char was a backslash inside a string literal
 
     for ch in input.chars() {
+        if escaped {
+            // `\"` does not end the string literal
+            escaped = false;
+            current.push(ch);
+            continue;
+        }
         match ch {
+            '\\' if in_string => {
+                escaped = true;
+                current.push(ch);
+            }
             '"' => {
                 in_string = !in_string;
                 current.push(ch);
